@@ -465,6 +465,11 @@ func (cl *Cluster) Stop(name string) {
 	go func() {
 		_ = cn.Server.Close()
 		cn.Node.Close()
+		// give the h2c connections of this member's client back (thousands of small clusters in one process
+		// otherwise exhaust descriptors and ephemeral ports)
+		if cn.Client != nil && cn.Client.Inner != nil && cn.Client.Inner.HTTPClient != nil {
+			cn.Client.Inner.HTTPClient.CloseIdleConnections()
+		}
 		close(done)
 	}()
 	select {
